@@ -302,3 +302,10 @@ def t_failed_update(sess, n_grains):
             sess.prove(f"{tag}: every cell of every stored snapshot unchanged", p.pc, z3.And(*cl) if cl else z3.BoolVal(False))
         sess.satisfiable(f"failed update [{label}]: reach", paths[0].pc if paths else [z3.BoolVal(False)])
     sample(sess, obligation="failed update leaves history untouched", scenarios=[s[0] for s in scenarios])
+
+
+def default_cex(name):
+    """Generic public-API replay for verdicts that carry no more specific counterexample."""
+    if "dispatch" in name or "crss" in name or "failed update" in name:
+        return {"replay": "vf.props.replays:c07_dispatch", "case": {}, "cls": {"kind": "regime / ordinal dispatch or failed-update handling deviates"}}
+    return {"replay": "vf.props.replays:c07_null", "case": {}, "cls": {"kind": "null forcing changes the texture"}}
